@@ -9,6 +9,8 @@
 //   pool reserr                              ResolverError
 //   pool scs sc=<id> st=IDLE|CONNECTING|READY|TF|SHUTDOWN
 //   pool factory fail=<n>                    the next n NewSubConn calls fail
+//   pool pick2 a=<id> b=<id> picker=<n>      two plain picks run concurrently while the harness stalls gb.mu
+//                                            => <events> ; a:<result> ; b:<result> ; <digest>
 //   pool adv ns=<n>                          advance the virtual clock
 //   pool pick call=<id> picker=<n> m=<method> ctx=gcp|gcpnoreply|none dl=<abs ns>|none req=<shape>
 //   pool ctxdone call=<id>                   cancel the context of a waiting round-robin BIND pick
@@ -540,6 +542,8 @@ func (h *vPool) exec(line string) string {
 		res = "ok"
 	case "pick":
 		res = h.doPick(a)
+	case "pick2":
+		res = h.doPick2(a)
 	case "ctxdone":
 		id := atoi("call")
 		var c *vCall
@@ -669,6 +673,73 @@ func (h *vPool) doPick(a map[string]string) string {
 	}
 }
 
+// doPick2 runs two plain picks on one picker concurrently. While they start, the harness holds the
+// balancer lock, so a pick that has to ask the balancer (a saturated pool: getConnectionPoolSize,
+// newSubConn) stops in the middle of Pick; both are then released together. The picker's own
+// mutex is what must make "find the least-loaded channel and count the call on it" atomic.
+func (h *vPool) doPick2(a map[string]string) string {
+	ida, _ := strconv.Atoi(a["a"])
+	idb, _ := strconv.Atoi(a["b"])
+	pn, _ := strconv.Atoi(a["picker"])
+	if pn < 0 || pn >= len(h.cc.pubs) {
+		return "bad-op"
+	}
+	if _, dup := h.calls[ida]; dup || ida == idb {
+		return "bad-op"
+	}
+	if _, dup := h.calls[idb]; dup {
+		return "bad-op"
+	}
+	p := h.cc.pubs[pn].picker
+	mk := func(id int) *vCall {
+		c := &vCall{id: id, result: make(chan string, 1), reply: &vMsg{}}
+		c.ctx = &vCtx{Context: context.Background(), doneCh: make(chan struct{}), entered: make(chan struct{}, 1)}
+		return c
+	}
+	cs := []*vCall{mk(ida), mk(idb)}
+	h.gb.mu.Lock()
+	for _, c := range cs {
+		c := c
+		go func() {
+			defer func() {
+				if r := recover(); r != nil {
+					c.result <- "PANIC"
+				}
+			}()
+			ctx := context.WithValue(context.Context(c.ctx), gcpKey, &gcpContext{reqMsg: mkReq("/"), replyMsg: c.reply})
+			r, err := p.Pick(balancer.PickInfo{FullMethodName: "plain", Ctx: ctx})
+			switch {
+			case err == nil:
+				c.done = r.Done
+				c.sc = r.SubConn.(*vSubConn).id
+				c.result <- fmt.Sprintf("placed sc=%d", c.sc)
+			case err == balancer.ErrNoSubConnAvailable:
+				c.result <- "nosc"
+			case err == balancer.ErrTransientFailure:
+				c.result <- "tf"
+			default:
+				c.result <- "keyerr"
+			}
+		}()
+	}
+	time.Sleep(4 * time.Millisecond) // both are now blocked on the balancer lock, or have returned
+	h.gb.mu.Unlock()
+	out := []string{}
+	for i, c := range cs {
+		select {
+		case r := <-c.result:
+			if r == "PANIC" {
+				return "PANIC"
+			}
+			h.recordPlaced(c, r)
+			out = append(out, []string{"a:", "b:"}[i]+r)
+		case <-time.After(3 * time.Second):
+			return "HANG"
+		}
+	}
+	return strings.Join(out, " ; ")
+}
+
 func (h *vPool) reset(a map[string]string) {
 	atoi := func(k string) uint32 { n, _ := strconv.Atoi(a[k]); return uint32(n) }
 	// release goroutines of the previous episode
@@ -716,6 +787,7 @@ type vGen struct {
 	profile  string
 	maxAddr  int
 	ums      int
+	rrOn     bool
 }
 
 func (g *vGen) cfgLine() string {
@@ -784,6 +856,7 @@ func (g *vGen) cfgLine() string {
 		g.scenarioFallbackRefresh()
 	}
 	g.maxAddr = 1
+	g.rrOn = rr == 1
 	g.keys = []string{"k1", "k2", "k3", "k4"}[:1+r.Intn(4)]
 	return fmt.Sprintf("pool cfg min=%d max=%d wm=%d fb=%d rr=%d uc=%d ums=%d cfg=%s", min, max, wm, fb, rr, uc, ums, cfg)
 }
@@ -1201,6 +1274,18 @@ func (g *vGen) next(i int) string {
 		}
 	}
 	if i == 0 {
+		// now and then the connection factory already fails when the pool is first created
+		if r.Intn(8) == 0 {
+			n := 1 + r.Intn(4)
+			if r.Intn(3) == 0 {
+				n = 4294967295 // the factory keeps failing
+			}
+			g.script = append(g.script, func() string { return "pool ccs addrs=1" })
+			if r.Intn(2) == 0 {
+				g.script = append(g.script, func() string { return "pool ccs addrs=1" })
+			}
+			return fmt.Sprintf("pool factory fail=%d", n)
+		}
 		ver := 1
 		if r.Intn(15) == 0 {
 			ver = 0
@@ -1214,6 +1299,14 @@ func (g *vGen) next(i int) string {
 		w := r.Intn(100)
 		line := ""
 		switch {
+		case w < 38 && !g.rrOn && len(h.cc.pubs) > 0 && r.Intn(20) == 0:
+			// two concurrent plain picks (the pool's stream counts decide where they may go)
+			pn := len(h.cc.pubs) - 1
+			if r.Intn(8) == 0 {
+				pn = r.Intn(len(h.cc.pubs))
+			}
+			g.nextCall += 2
+			line = fmt.Sprintf("pool pick2 a=%d b=%d picker=%d", g.nextCall-1, g.nextCall, pn)
 		case w < 38:
 			line = g.pickLine()
 		case w < 62:
@@ -1239,7 +1332,11 @@ func (g *vGen) next(i int) string {
 			line = "pool reserr"
 		case w < 97:
 			if g.profile == "chaos" || g.profile == "refresh" || r.Intn(5) == 0 {
-				line = fmt.Sprintf("pool factory fail=%d", r.Intn(3))
+				n := r.Intn(3)
+				if r.Intn(6) == 0 {
+					n = 4294967295 // keeps failing until the next factory line
+				}
+				line = fmt.Sprintf("pool factory fail=%d", n)
 			}
 		default:
 			if len(h.waiting) > 0 {
